@@ -222,6 +222,7 @@ type sigGroup struct {
 	Confirmed bool
 	Known     bool
 	Native    string
+	seenChoice map[string]bool
 }
 
 func modelSummary(m map[string]uint64) string {
@@ -563,7 +564,15 @@ func runCheck(def *checkDef, tier string, seed int64, workers int) int {
 			order = append(order, v.ID)
 		}
 		g.Count++
-		if len(g.Examples) < 8 {
+		// examples for the native confirmation: the first few, and any whose combination of
+		// choices (kind of kill, request, shape ...) has not been seen yet - one kind of example
+		// may be beyond what the native replay can emulate while another reproduces
+		ck := choiceKey(v)
+		if g.seenChoice == nil {
+			g.seenChoice = map[string]bool{}
+		}
+		if len(g.Examples) < 4 || (!g.seenChoice[ck] && len(g.Examples) < 24) {
+			g.seenChoice[ck] = true
 			g.Examples = append(g.Examples, v)
 		}
 	}
@@ -1064,6 +1073,23 @@ func crossCheck(transcript string, maxBytes int64) (int, string, error) {
 		}
 	}
 	return len(got), "", nil
+}
+
+// choiceKey: the job and the values of the harness's choice variables (named #...) of a violation.
+func choiceKey(v interp.Violation) string {
+	var keys []string
+	for k := range v.Model {
+		if strings.HasPrefix(k, "#") {
+			keys = append(keys, k)
+		}
+	}
+	sort.Strings(keys)
+	var b strings.Builder
+	b.WriteString(v.Job)
+	for _, k := range keys {
+		fmt.Fprintf(&b, " %s=%d", k, v.Model[k])
+	}
+	return b.String()
 }
 
 func sanitizeJob(s string) string {
